@@ -272,131 +272,150 @@ Definition with_entries (d : dest) (es : list entry) (np : N) : dest :=
 Definition ctr_of (t : table) (c : N) : N :=
   match alookup c (t_ctrs t) with Some v => v | None => 0 end.
 
+(* destinations.entry(net).or_insert_with(|| Destination::with_id(alloc())):
+   the destination and the allocator's used set afterwards *)
+Definition ins_lookup (t : table) (net : N) : dest * list N :=
+  match alookup net (t_dests t) with
+  | Some d => (d, t_used t)
+  | None =>
+      let l := alloc_id (t_used t) in
+      ({| d_entries := []; d_next_pid := 1; d_id := dest_id (t_shard t) l |}, l :: t_used t)
+  end.
+
+(* same peer address and same remote path id: the path being replaced *)
+Definition same_key (s : src) (rpid : N) (e : entry) : bool :=
+  from_addr (s_addr s) e && (e_rpid e =? rpid).
+
+Definition ins_is_new (s : src) (rpid : N) (d0 : dest) : bool :=
+  match find (same_key s rpid) (d_entries d0) with
+  | None => negb (existsb (fun e => from_addr (s_addr s) e && negb (e_rpid e =? rpid)) (d_entries d0))
+  | Some _ => false
+  end.
+
+Definition ins_over (t : table) (limit : option (N * N)) (is_new : bool) : bool :=
+  match limit with
+  | Some (mx, c) => is_new && (mx <=? ctr_of t c)
+  | None => false
+  end.
+
+Definition ins_ctrs (t : table) (limit : option (N * N)) (is_new : bool) : list (N * N) :=
+  match limit with
+  | Some (mx, c) => if is_new then aset c (wrap_inc (ctr_of t c)) (t_ctrs t) else t_ctrs t
+  | None => t_ctrs t
+  end.
+
+Definition ins_pid (d0 : dest) (rest : list entry) (replaced : option entry) : option (N * N) :=
+  match replaced with
+  | Some old => Some (e_lpid old, d_next_pid d0)
+  | None => alloc_pid (with_entries d0 rest (d_next_pid d0))
+  end.
+
+Definition ins_stats (st : N * N) (replaced : option entry) (is_new filtered : bool) : N * N * bool :=
+  let rcv := fst st in
+  let acc := snd st in
+  match replaced with
+  | Some old =>
+      match e_filtered old, filtered with
+      | true, false => (rcv, acc + 1, false)
+      | false, true => (rcv, fst (dec_stat acc), snd (dec_stat acc))
+      | _, _ => (rcv, acc, false)
+      end
+  | None =>
+      if is_new then (rcv + 1, if filtered then acc else acc + 1, false)
+      else (rcv, if filtered then acc else acc + 1, false)
+  end.
+
+Definition ins_out (t : table) (d0 d2 : dest) (net : N) (replaced : option entry) (filtered : bool) : out :=
+  if t_deferring t then ONoChange
+  else
+    let best_changed := negb (key_eqb (best_key d0) (best_key d2)) in
+    let any_changed := negb filtered ||
+                       match replaced with Some r => negb (e_filtered r) | None => false end in
+    if negb best_changed && negb any_changed then ONoChange
+    else OChanged {| c_net := net; c_dest_id := d_id d2; c_best_changed := best_changed;
+                     c_any_changed := any_changed;
+                     c_replaced := match replaced with Some r => Some (e_lpid r) | None => None end;
+                     c_paths := elig_list d2 |}.
+
 Definition insert (t : table) (s : src) (net rpid : N) (nh : option N) (a : attrs)
            (filtered nhinv : bool) (limit : option (N * N)) : table * out :=
-  (* destinations.entry(net).or_insert_with(|| Destination::with_id(alloc())) *)
-  let '(d0, used1, fresh) :=
-    match alookup net (t_dests t) with
-    | Some d => (d, t_used t, false)
-    | None =>
-        let l := alloc_id (t_used t) in
-        ({| d_entries := []; d_next_pid := 1; d_id := dest_id (t_shard t) l |}, l :: t_used t, true)
-    end in
-  let old_key := best_key d0 in
-  let same e := from_addr (s_addr s) e && (e_rpid e =? rpid) in
-  let replaced := find same (d_entries d0) in
-  let peer_has_path := existsb (fun e => from_addr (s_addr s) e && negb (e_rpid e =? rpid)) (d_entries d0) in
-  let rest := filter (fun e => negb (same e)) (d_entries d0) in
-  let is_new := match replaced with None => negb peer_has_path | Some _ => false end in
-  let over :=
-    match limit with
-    | Some (mx, c) => is_new && (mx <=? ctr_of t c)
-    | None => false
-    end in
-  if over then
-    (* nothing was inserted; a destination created above with no path is
-       removed again and its id released *)
+  let d0 := fst (ins_lookup t net) in
+  let replaced := find (same_key s rpid) (d_entries d0) in
+  let rest := filter (fun e => negb (same_key s rpid e)) (d_entries d0) in
+  let is_new := ins_is_new s rpid d0 in
+  if ins_over t limit is_new then
+    (* nothing is inserted; a destination created for the lookup with no path
+       is removed again and its id released *)
     (t, OLimit)
   else
-    let ctrs1 :=
-      match limit with
-      | Some (mx, c) => if is_new then aset c (wrap_inc (ctr_of t c)) (t_ctrs t) else t_ctrs t
-      | None => t_ctrs t
-      end in
-    let d1 := with_entries d0 rest (d_next_pid d0) in
-    let pid_np :=
-      match replaced with
-      | Some old => Some (e_lpid old, d_next_pid d1)
-      | None => alloc_pid d1
-      end in
-    match pid_np with
+    match ins_pid d0 rest replaced with
     | None => (t, ONoChange)      (* unreachable: 2^32 live paths *)
-    | Some (lpid, np) =>
-        let e := {| e_lpid := lpid; e_rpid := rpid; e_src := s; e_nh := nh; e_attr := a;
+    | Some pn =>
+        let e := {| e_lpid := fst pn; e_rpid := rpid; e_src := s; e_nh := nh; e_attr := a;
                     e_filtered := filtered; e_nhinv := nhinv |} in
-        let '(rcv, acc) := stats_of t (s_addr s) in
-        let '(rcv', acc', bad') :=
-          match replaced with
-          | Some old =>
-              match e_filtered old, filtered with
-              | true, false => (rcv, acc + 1, false)
-              | false, true => let '(x, b) := dec_stat acc in (rcv, x, b)
-              | _, _ => (rcv, acc, false)
-              end
-          | None =>
-              if is_new then (rcv + 1, if filtered then acc else acc + 1, false)
-              else (rcv, if filtered then acc else acc + 1, false)
-          end in
-        let d2 := with_entries d1 (ins_sorted (cmp_for (t_flags t) net) e rest) np in
-        let t' := {| t_deferring := t_deferring t; t_dests := aset net d2 (t_dests t);
-                     t_used := used1; t_stats := aset (s_addr s) (rcv', acc') (t_stats t);
-                     t_flags := t_flags t; t_ctrs := ctrs1; t_shard := t_shard t;
-                     t_bad := t_bad t || bad' |} in
-        if t_deferring t then (t', ONoChange)
-        else
-          let best_changed := negb (key_eqb old_key (best_key d2)) in
-          let any_changed := negb filtered ||
-                             match replaced with Some r => negb (e_filtered r) | None => false end in
-          if negb best_changed && negb any_changed then (t', ONoChange)
-          else (t', OChanged {| c_net := net; c_dest_id := d_id d2; c_best_changed := best_changed;
-                                c_any_changed := any_changed;
-                                c_replaced := match replaced with Some r => Some (e_lpid r) | None => None end;
-                                c_paths := elig_list d2 |})
+        let st := ins_stats (stats_of t (s_addr s)) replaced is_new filtered in
+        let d2 := with_entries d0 (ins_sorted (cmp_for (t_flags t) net) e rest) (snd pn) in
+        ({| t_deferring := t_deferring t; t_dests := aset net d2 (t_dests t);
+            t_used := snd (ins_lookup t net); t_stats := aset (s_addr s) (fst st) (t_stats t);
+            t_flags := t_flags t; t_ctrs := ins_ctrs t limit is_new; t_shard := t_shard t;
+            t_bad := t_bad t || snd st |},
+         ins_out t d0 d2 net replaced filtered)
     end.
 
 (* ------------------------------------------------------------------ remove *)
 
+Fixpoint remove_first (f : entry -> bool) (l : list entry) : list entry :=
+  match l with
+  | [] => []
+  | x :: r => if f x then r else x :: remove_first f r
+  end.
+
 Definition local_of (id : N) : N := N.land id 16777215.
+
+Definition rem_stats (st : N * N) (still was_unfiltered : bool) : N * N * bool :=
+  let r1 := if still then (fst st, false) else dec_stat (fst st) in
+  let a1 := if was_unfiltered then dec_stat (snd st) else (snd st, false) in
+  (fst r1, fst a1, snd r1 || snd a1).
+
+Definition rem_ctrs (t : table) (ctr : option N) (still : bool) : list (N * N) :=
+  match ctr with
+  | Some c => if still then t_ctrs t else aset c (wrap_dec (ctr_of t c)) (t_ctrs t)
+  | None => t_ctrs t
+  end.
 
 Definition remove (t : table) (s : src) (net rpid : N) (ctr : option N) : table * option change :=
   match alookup net (t_dests t) with
   | None => (t, None)
   | Some d =>
-      let same e := from_addr (s_addr s) e && (e_rpid e =? rpid) in
-      match find same (d_entries d) with
+      match find (same_key s rpid) (d_entries d) with
       | None => (t, None)
       | Some removed =>
-          let old_key := best_key d in
           let was_unfiltered := negb (e_filtered removed) in
           (* Vec::remove(position) removes the first match only *)
-          let rest :=
-            (fix rm (l : list entry) : list entry :=
-               match l with
-               | [] => []
-               | x :: r => if same x then r else x :: rm r
-               end) (d_entries d) in
+          let rest := remove_first (same_key s rpid) (d_entries d) in
           let still := existsb (from_addr (s_addr s)) rest in
-          let '(rcv, acc) := stats_of t (s_addr s) in
-          let '(rcv1, b1) := if still then (rcv, false) else dec_stat rcv in
-          let ctrs1 :=
-            match ctr with
-            | Some c => if still then t_ctrs t else aset c (wrap_dec (ctr_of t c)) (t_ctrs t)
-            | None => t_ctrs t
-            end in
-          let '(acc1, b2) := if was_unfiltered then dec_stat acc else (acc, false) in
-          let stats1 := aset (s_addr s) (rcv1, acc1) (t_stats t) in
-          let bad1 := t_bad t || b1 || b2 in
+          let st := rem_stats (stats_of t (s_addr s)) still was_unfiltered in
+          let stats1 := aset (s_addr s) (fst st) (t_stats t) in
+          let d' := with_entries d rest (d_next_pid d) in
           match rest with
           | [] =>
-              let t' := {| t_deferring := t_deferring t; t_dests := aremove net (t_dests t);
-                           t_used := filter (fun x => negb (x =? local_of (d_id d))) (t_used t);
-                           t_stats := stats1; t_flags := t_flags t; t_ctrs := ctrs1;
-                           t_shard := t_shard t; t_bad := bad1 |} in
-              (t', if was_unfiltered
-                   then Some {| c_net := net; c_dest_id := d_id d; c_best_changed := true;
-                                c_any_changed := true; c_replaced := None; c_paths := [] |}
-                   else None)
+              ({| t_deferring := t_deferring t; t_dests := aremove net (t_dests t);
+                  t_used := filter (fun x => negb (x =? local_of (d_id d))) (t_used t);
+                  t_stats := stats1; t_flags := t_flags t; t_ctrs := rem_ctrs t ctr still;
+                  t_shard := t_shard t; t_bad := t_bad t || snd st |},
+               if was_unfiltered
+               then Some {| c_net := net; c_dest_id := d_id d; c_best_changed := true;
+                            c_any_changed := true; c_replaced := None; c_paths := [] |}
+               else None)
           | _ =>
-              let d' := with_entries d rest (d_next_pid d) in
-              let t' := {| t_deferring := t_deferring t; t_dests := aset net d' (t_dests t);
-                           t_used := t_used t; t_stats := stats1; t_flags := t_flags t;
-                           t_ctrs := ctrs1; t_shard := t_shard t; t_bad := bad1 |} in
-              let best_changed := negb (key_eqb old_key (best_key d')) in
-              let any_changed := was_unfiltered in
-              if negb best_changed && negb any_changed then (t', None)
-              else (t', Some {| c_net := net; c_dest_id := d_id d; c_best_changed := best_changed;
-                                c_any_changed := any_changed; c_replaced := None;
-                                c_paths := elig_list d' |})
+              ({| t_deferring := t_deferring t; t_dests := aset net d' (t_dests t);
+                  t_used := t_used t; t_stats := stats1; t_flags := t_flags t;
+                  t_ctrs := rem_ctrs t ctr still; t_shard := t_shard t; t_bad := t_bad t || snd st |},
+               let best_changed := negb (key_eqb (best_key d) (best_key d')) in
+               if negb best_changed && negb was_unfiltered then None
+               else Some {| c_net := net; c_dest_id := d_id d; c_best_changed := best_changed;
+                            c_any_changed := was_unfiltered; c_replaced := None;
+                            c_paths := elig_list d' |})
           end
       end
   end.
